@@ -159,7 +159,7 @@ def main():
 
     t0 = time.time()
     known = load_known()
-    open_findings = [f for f in known.get('findings', []) if f['property'] == pid]
+    open_findings = [f for f in known.get('findings', []) if pid in f.get('properties', [f.get('property')])]
 
     # ---- known findings: replay each witness; a region is excluded only while its witness fails --
     active = []
@@ -167,6 +167,7 @@ def main():
     kf_checked = 0
     for f in open_findings:
         w = f['witness']
+        w = f.get('witnesses', {}).get(pid, w)
         spec = {'name': 'witness:' + f['region'], 'module': w['module'], 'factory': w['factory'],
                 'params': w.get('params', {}), 'witness_args': w['args']}
         r = run_witness(spec)
